@@ -2,6 +2,6 @@ From Gv Require Import lib.Bytes lib.Json lib.Gql C17.Util C17.ValueSyntax C17.B
 From Coq Require Import ZArith.
 Require Import ExtrOcamlBasic.
 Extraction Language OCaml.
-Extraction "model.ml" merge_base generate idata_json convert decode_data
-  wf_schema lossy_clauses with_base schema_equiv_b schema_equiv_diag
+Extraction "model.ml" merge_base_doc generate_doc idata_json convert decode_data
+  described wf_schema lossy_clauses with_base schema_equiv_b schema_equiv_diag
   complete_exact_b complete_exact_diag typeref_faithful_b nontrivial_b Z.of_N.
